@@ -1,4 +1,5 @@
 import HapVerif.Model.C10
+import HapVerif.Model.C10Hist
 import HapVerif.Generated.Facts
 import HapVerif.Drv.Common
 /-! Line-protocol driver of C10: parses the world of a case line (grammar: harness/cmd/hv/c10.go),
@@ -122,7 +123,9 @@ def parseLabels (s : String) : Option (List (String × String)) := (lst s "+").m
 def parseWorld (cls nss gws routes svcs : String) : Option World := do
   let cls ← (lst cls ",").mapM fun c => do
     let (n, o) ← split2 c ":"
-    pure (n, decide (o = "o"))
+    -- `o` = our controllerName, `o<k>` = ours with parametersRef variant k (never read by the code);
+    -- anything else (`f`, `f<k>`) = another controller
+    pure (n, o.startsWith "o")
   let nss ← (lst nss ",").mapM fun c => do
     let (n, ls) ← split2 c ":"
     let ls ← parseLabels ls
@@ -195,6 +198,58 @@ def handleWith (fx : Bool) (args : List String) (impl : String) : Verdict :=
           trivial := st.backends.isEmpty }
   | _ => bad "C10"
 
-def handle (args : List String) (impl : String) : Verdict := handleWith currentFixed args impl
+/-! ### histories on one long-lived cache facade (`Model/C10Hist.lean`) -/
+
+def parseWorlds : List String → Option (List World)
+  | [] => some []
+  | a :: b :: c :: d :: e :: rest => do
+    let w ← parseWorld a b c d e
+    let ws ← parseWorlds rest
+    pure (w :: ws)
+  | _ => none
+
+/-- Spec on every step: the EXISTING oracle on that step's cluster only; a failure after the first
+step carries the suffix `-after-history` (step 1 is a fresh controller: the one-snapshot check) -/
+def histOracle : Nat → List World → List String → Option String
+  | _, [], _ => none
+  | _, _ :: _, [] => some "unparsable-output"
+  | i, w :: ws, out :: outs =>
+    match parseObs out with
+    | none => some "unparsable-output"
+    | some o =>
+      match oracle w o with
+      | some c => some (if i = 0 then c else c ++ "-after-history")
+      | none => histOracle (i + 1) ws outs
+
+/-- `h <ver> <n> (<classes> <nss> <gws> <routes> <svcs>) × n  =>  <out 1> … <out n> <fresh>`:
+`out i` = configuration after the full sync of step i on the ONE long-lived facade, `fresh` = a new
+facade + converter on the last cluster.  The model is the history machine over `pureFacade` (the code
+as it is). -/
+def handleHist (fx : Bool) (ver : String) (n : String) (rest : List String) (impl : String) : Verdict :=
+  match parseWorlds rest, n.toNat? with
+  | some ws, some k =>
+    if ws.length ≠ k ∨ k = 0 then bad "C10-history-length" else
+    let outs := history pureFacade fx (stepsOf ver none ws)
+    let ms := outs.map fun o => render o.2
+    let fr := match ws.getLast? with
+      | some w => render (fresh fx w).2
+      | none => "-"
+    let m := " ".intercalate (ms ++ [fr])
+    if impl.startsWith "PANIC" then { model := m, agree := false, oracle := some "panic" } else
+    let parts := impl.splitOn " "
+    if parts.length ≠ k + 1 then { model := m, agree := false, oracle := some "unparsable-output" } else
+    let long := parts.take k
+    let orc := (histOracle 0 ws long) <|>
+      (if long.getLast? ≠ parts.getLast? then some "long-lived-facade-differs-from-fresh-controller" else none)
+    { model := m, agree := m = impl, oracle := orc,
+      trivial := match ms with
+        | [] => true
+        | x :: xs => xs.all (· == x) }
+  | _, _ => bad "C10-history"
+
+def handle (args : List String) (impl : String) : Verdict :=
+  match args with
+  | "h" :: ver :: n :: rest => handleHist currentFixed ver n rest impl
+  | _ => handleWith currentFixed args impl
 
 end HapVerif.C10
